@@ -122,8 +122,18 @@ def execute(mat, ctx):
         def rec(t, i):
             # per-letter tracks (same name, any container type) and one feature with fuzzy positions, both decided by the text
             spec = {"id": "r%d" % i, "seq": t, "features": []}
+            # record-wide annotations of any usual shape (molecule type in any spelling ...) and, now and then, an anonymous
+            # record (blank id, name and description)
+            ann = gen.annotation_variety("c19", t[:30], len(t)) or {}
             if topo(t):
-                spec["annotations"] = {"topology": topo(t)}
+                ann["topology"] = topo(t)
+            if ann:
+                spec["annotations"] = ann
+            hh = (len(t) * 13 + ord(t[2 % len(t)])) % 9
+            if hh == 0:
+                spec.update(id="", name="", description="")
+            elif hh == 1:
+                spec.update(id="<unknown id>", name="<unknown name>", description="")
             lt = gen.letter_track_variety(len(t), "c19", t[:30], len(t))
             if lt:
                 spec["letters"] = lt
